@@ -61,12 +61,13 @@ class LCtx(CCtx):
 
 
 class LoopSpec:
-    def __init__(self, inv=None, stable_iter=True, variant=None, locals_ty=None, note='', iter_src=None):
+    def __init__(self, inv=None, stable_iter=True, variant=None, locals_ty=None, note='', iter_src=None, term_unverified=False):
         """inv(c: LCtx) -> list[(name, formula)];  stable_iter: the iterated container is not modified by the body
         (checked as part of the invariant; licenses done == bag at exit); variant(c) for while loops;
         locals_ty: {name: T} static hints for locals first assigned in the loop."""
         self.inv = inv or (lambda c: [])
         self.stable_iter, self.variant, self.locals_ty, self.note = stable_iter, variant, locals_ty or {}, note
+        self.term_unverified = term_unverified    # while loop whose termination is NOT proved (listed as an unchecked assumption)
         self.iter_src = iter_src      # expected source text of the iterated expression: a loop that iterates something else is a
                                       # shape mismatch (undecided), never checked against the wrong invariant
 
@@ -119,6 +120,7 @@ class ClassInfo:
         self.name, self.mod, self.dataclass, self.fields, self.init = name, mod, dataclass, fields or [], init
         self.getattr_hook = None     # (ex, st, obj SV, name SV) -> SV : getattr(obj, <symbolic name>) for library objects
         self.tuple_fields = tuple_fields       # heap model of an immutable tuple stored in a container: field names in order
+        self.class_name_field = None           # field holding type(x).__name__ for library-generated classes (PJS)
 
 
 class Registry:
